@@ -20,8 +20,7 @@ func NewEnv() *Env {
 
 func (e *Env) Inherit(parent *Env) *Env {
 	util.Assert(e.parent == nil, "env.parent != nil")
-	e.parent = parent
-	return e
+	return &Env{parent, e.ctx, e.fnTbl, e.Dgb}
 }
 
 func (e *Env) Derive() *Env {
